@@ -26,6 +26,14 @@ def plan(tier):
     for mt in (2, 3):
         p.append((S.T2(params={"max_tries": mt}, O=S.PF).variant(f"/max_tries={mt}"), 1 if q else 2, 2))
     p.append((S.T2("cluster1.net6 cluster2.net6", params={"pool_scope": "own swarm shared", "max_tries": 2}, own={"cluster2.net6": S.VM1_CHAIN}).variant("/clusters,scope=own+swarm+shared,mt=2,own(c2.net6)=chain"), 1, 1))
+    # narrowed reuse scopes (every lxc worker / every swarm / every cluster keeps its own setup), with and without retries and shared setup
+    for scope in ("own shared", "own", "own swarm shared", "own cluster shared", "shared", "swarm shared"):
+        tag = scope.replace(" ", "+")
+        p.append((S.T2(params={"pool_scope": scope}, O=S.PF).variant(f"/scope={tag}"), 1 if q else 2, 1))
+        p.append((S.T1(params={"pool_scope": scope}, shared=S.VM1_CHAIN[:1], O=S.PF).variant(f"/scope={tag},shared=install"), 1 if q else 2, 0.5))
+        if not q or scope in ("own shared", "own"):
+            p.append((S.T2(params={"pool_scope": scope, "max_tries": 2}, O=S.PF).variant(f"/scope={tag},mt=2"), 0 if q else 1, 0.5))
+    p.append((S.T2("cluster1.net6 cluster1.net7 cluster2.net6", params={"pool_scope": "own shared"}, O=S.PF).variant("/clusters,scope=own+shared"), 0 if q else 1, 1))
     # persistent failure of one test or of the creation step
     for pat, tag in ((r"\.customize\.", "customize"), (r"\.on_customize\.", "on_customize"), (r"unattended_install", "install"),
                      (r"stateless\.noop", "creation-pre-step"), (r"tutorial1", "tutorial1")):
